@@ -84,6 +84,25 @@ theorem body_before_submessages (cfg : Config E) (blk : Block) (fuel : Nat) (ch 
       tr ++ [⟨c, .execute ⟨sender, funds⟩ m, contractEnv blk c, note⟩] ++ rest :=
   EngineOrder.body_before_submessages cfg blk fuel ch sender c m funds tr
 
+/-! ### exactly once, over a whole list of sub-messages -/
+
+/-- Processing the sub-message list `sms` of a response of `c` appends to the trace exactly `flatSegs segs`, where `segs` holds one
+segment pair per STARTED sub-message — a prefix of `sms` in list order, all of `sms` when processing succeeded (`Walk`: each next
+sub-message starts only after its predecessor together with its reply succeeded, on the state that left). For every segment
+(`SegFacts`): `tSub` is exactly the trace of executing that sub-message's message as a message of `c`, to any depth; `tReply` is
+empty or starts with ONE `reply` invocation on `c` carrying the sub-message's id, payload and own outcome (`subResultOf`), followed
+only by what that reply's response processing ran; and (`once`, given fuel) `tReply` is empty exactly when the outcome/mode pair
+does not demand a reply or the dispatcher no longer exists. So at this level `reply` is entered exactly once per sub-message
+that demands it and never otherwise, between that sub-message and its successor; the levels below are the same statement for the
+`processResponse` calls inside `tSub` and `tReply`. -/
+theorem siblings_exactly_once (cfg : Config E) (blk : Block) (c : Addr) (sms : List SubMsg) (n : Nat) (ch : Chain E)
+    (resp : AppResponse) (tr : Trace) :
+    ∃ segs : List EngineOrder.SubSeg,
+      EngineOrder.Walk cfg blk c n ch sms tr segs ∧
+      (processResponse cfg blk n ch c resp sms tr).2 = tr ++ EngineOrder.flatSegs segs ∧
+      ((processResponse cfg blk n ch c resp sms tr).1.isOk = true → segs.map (·.sm) = sms) :=
+  EngineOrder.siblings_walk cfg blk c sms n ch resp tr
+
 /-! ### tie T: the reply rule of the current sources (`execute_submsg`, re-read on every run by checklib/tr_rules.py) -/
 
 /-- The table regenerated from /repo/src/wasm.rs — per arm of the sub-message result: the `reply_on` variants for which
